@@ -194,7 +194,12 @@ def run_check(mod, tier, seed, nproc=None):
         st, payload, _ = _run_one(items[idx])
         if st != "ok" or payload[0] != results[idx][1][0] or payload[7] != results[idx][1][7] \
                 or [f["sig"] for f in payload[2]] != [f["sig"] for f in results[idx][1][2]]:
-            raise HarnessError("non-deterministic re-execution of case %d (%s)" % (idx, fam))
+            if violations:
+                # the library's answer depends on what the executing process did before (itself a symptom of hidden
+                # state); the violations found are reported, the re-execution mismatch is only noted
+                print("NOTE: re-execution of case %d (%s) in the parent process gave a different outcome" % (idx, fam))
+            else:
+                raise HarnessError("non-deterministic re-execution of case %d (%s)" % (idx, fam))
 
     summary = {
         "evaluations": len(items) + info.get("_inner", 0), "distinct": len(seen) + info.get("_inner", 0),
